@@ -51,6 +51,16 @@ func (c17) generateGit(r *core.Rand, tier string, idx uint64) *core.Case {
 	c.Config["opA"], c.Config["opB"] = a, bk
 	c.Config["preemptAt"] = int(seq / 3 % 16) // swept, not drawn: every pre-emption point of every log state comes round
 	c.Flags["sameRef"] = r.Chance(0.2)
+	// The window in which only the compare-and-set protects the log (after the
+	// commit's own tip read, before its update-ref) lies at a different call
+	// index for every operation kind; with the few real-git cases of a quick run
+	// the index sweep may not reach it. Every fourth case aims at it directly.
+	// (1 = before the update-ref of the log, 2 = before the commit-tree of the log entry)
+	if seq%4 == 3 {
+		c.Config["preemptOn"] = 1
+	} else if seq%4 == 1 {
+		c.Config["preemptOn"] = 2
+	}
 	return c
 }
 
@@ -188,7 +198,15 @@ func (d c17) executeGit(c *core.Case) (res *core.Result) {
 		if inB {
 			return nil
 		}
-		if len(callsA) == c.Config["preemptAt"] && !B.ran {
+		hit := len(callsA) == c.Config["preemptAt"]
+		if c.Config["preemptOn"] == 1 {
+			hit = args[0] == "update-ref" && strings.Contains(strings.Join(args, " "), rsl.Ref)
+		}
+		if c.Config["preemptOn"] == 2 {
+			joined := strings.Join(args, " ")
+			hit = args[0] == "commit-tree" && (strings.Contains(joined, "RSL Reference Entry") || strings.Contains(joined, "RSL Annotation Entry"))
+		}
+		if hit && !B.ran {
 			inB = true
 			preemptedAt = len(callsA)
 			old := rsl.VerifSwapCache(B.cache)
